@@ -143,6 +143,9 @@ def objects_of(e, acc=None):
     if acc is None:
         acc = {}
     acc[id(e)] = e
+    tp = e.__dict__.get("_tempo", None)          # the tempo object of the node (None = never set: the default is made afresh)
+    if tp is not None:
+        acc[id(tp)] = tp
     if isinstance(e, C):
         d = e.__dict__.get("_duration", None)
         if d is not None:
@@ -162,7 +165,18 @@ def aliased(result, source):
         objects_of(r, res)
     n = len(set(src) & set(res))
     if not n:
-        return []
+        # the parts among each other: two parts must not hold one object either
+        rs = result if isinstance(result, (list, tuple)) and not isinstance(result, (S, P)) else []
+        if any(isinstance(o, C) and getattr(o, "name", 0) >= 1000 for o in src.values()):
+            rs = []         # shared-reference stream: the receiver itself holds one leaf at several positions, so may its copy
+        seen, twice = {}, 0
+        for k, r in enumerate(rs):
+            for i, o in objects_of(r).items():
+                if isinstance(o, cp.abc.Duration):
+                    continue        # leaves may share a pooled Duration object in the receiver already (and so in its copy)
+                if seen.setdefault(i, k) != k:
+                    twice += 1
+        return [["aliased-with-receiver", twice, "parts-share-objects-with-each-other", []]] if twice else []
     # demonstrate: double every leaf of the receiver in place and look at the returned value again
     rs = result if isinstance(result, (list, tuple)) and not isinstance(result, (S, P)) else [result]
     before = [snap(r) for r in rs]
